@@ -21,11 +21,11 @@ CHECKS = {
  "C10": ("rt", "bounded exhaustive enumeration of obtainable values x 3 formats: byte-level and serializer-event-level comparison with a plain newtype and the bare inner value, plus round trip", "4/C10",
          "For every obtainable canonical value the serialisation must be byte-identical to a plain serde newtype (and to the inner value in JSON/MessagePack), the recorded Serializer call sequence must be serialize_newtype_struct + the inner events, and from(to(v)) == v whenever the inner value round-trips."),
  "C11": ("rt", "explicit-state breadth-first search over (declaration, stored value) states with the derived entry points as transitions; invariant: every transition is a self loop", "4/C11",
-         "States are all values obtainable from the C01 domain plus Unicode-context sweeps; transitions re-enter every derived entry point with the state's own inner value / Display / serialisation; any non-self-loop is a counterexample and is followed to depth 4."),
+         "States are all values obtainable from the C01 domain plus Unicode-context sweeps and (for chains whose idempotence does not rest on the bounded domain) the values Arbitrary produces; transitions re-enter every derived entry point with the state's own inner value / Display / serialisation; any non-self-loop is a counterexample and is followed to depth 4."),
  "C12": ("rt", "explicit-state reachability over every entry point (non-finite value unobtainable) + exhaustive pair/triple/permutation checking of the order laws on the reached grid", "4/C12",
-         "For float newtypes with finite deriving Eq/Ord every entry point is explored on every non-finite input class; on a grid of obtained values all pairs, all triples and sort/BTreeMap on all rotations and 720-permutation sets are checked against the inner partial_cmp."),
+         "For float newtypes with finite deriving Eq/Ord every entry point is explored on every non-finite input class; on a grid of obtained values all pairs (incl. the operators < <= > >=), all triples and sort/BTreeMap on all rotations and 720-permutation sets are checked against the inner partial_cmp; every float declaration spelling without finite x every derive subset of bounded size containing Eq or Ord is expanded in-process and must be refused."),
  "C13": ("rt", "bounded exhaustive enumeration of obtainable values and all ordered pairs; views, Display, Hash write sequences and comparisons against the inner value", "4/C13",
-         "Every derived view of every obtainable value must equal REF's stored value, hash write sequences must be byte-identical to the inner and borrowed forms, and ==/partial_cmp/cmp on all ordered pairs must equal the inner comparison; map lookups through the borrowed form must succeed."),
+         "Every derived view of every obtainable value must equal REF's stored value, hash write sequences must be byte-identical to the inner and borrowed forms, and ==, !=, partial_cmp, cmp, the operators < <= > >=, Ord::max/min and clone_from on all ordered pairs must equal the inner type's; map lookups through the borrowed form must succeed."),
  "C14": ("rt", "exhaustive enumeration of every byte string of the length the generator consumes; produced set compared with the reference model's valid set", "4/C14",
          "For integer Arbitrary subjects with at most 2^16 valid values the complete input space of the generator is enumerated, so set equality (not just membership) is decided."),
  "C02": ("cc", "bounded exhaustive enumeration of bound spellings and attribute layouts through the real macro + rustc (per-module verdicts to a fixpoint), survivors executed on the neighbourhood of the denoted bound against the reference model", "4/C02",
@@ -33,9 +33,9 @@ CHECKS = {
  "C05": ("cc", "exhaustive compile-verdict exploration of an attack catalogue with control twins (fixpoint over rustc diagnostics) + structural invariant checked on every expansion of the bounded declaration space (in-process macro, syn)", "4/C05",
          "For each target declaration every bypass program must be rejected by rustc and every legitimate twin must compile; every expansion is parsed and all functions / impls / construction sites are checked against the guarantee (private module and field, construction only behind the guards, no mutable access, new_unchecked only unsafe with flag and feature)."),
  "C08": ("cc", "bounded exhaustive exploration of the declaration grammar against a three-valued reference admissibility predicate: in-process macro over the derive-subset space and bound positions, real macro + rustc on the reject/accept catalogue, cargo test on generated tests", "4/C08",
-         "The macro's accept/reject verdict is computed for every declaration of the bounded grammar (all derive subsets up to size 3 / all 2^22 in thorough, per family x guard shape x default; literal bounds in every relative position for all 14 numeric types; all reject classes per family; names that generated code also uses) and compared with REF's MustReject / MustAccept / Either; generated tests for expression bounds and defaults are run."),
+         "The macro's accept/reject verdict is computed for every declaration of the bounded grammar (all derive subsets up to size 3 / all 2^22 in thorough, per family x guard shape x default; literal bounds in every relative position for all 14 numeric types; all reject classes per family; names that generated code also uses) and compared with REF's MustReject / MustAccept / Either; generated tests for expression bounds and defaults are run; every declaration of the runtime subject pool must compile."),
  "C15": ("cc", "bounded exhaustive compile-verdict exploration of the non-string declaration grammar in #![no_std] crates against a std twin + token scan of every no-std expansion (in-process macro)", "4/C15",
-         "Every integer/float/other declaration of the bounded grammar x derive sets x flags is compiled in a #![no_std] crate with default features off (+serde, +arbitrary) and in a std twin; whatever compiles in the twin must compile in no_std; all expansions of the no-std shims (with and without ERROR_IN_CORE) are scanned for std/alloc-only names."),
+         "Every integer/float/other declaration of the bounded grammar x derive sets x flags is compiled in a #![no_std] crate with default features off (+serde, +arbitrary) - with the real arbitrary crate, in a crate graph that links no std at all (std-free port of arbitrary), and with cfg(test) on - and in a std twin; whatever compiles in the twin must compile in all three no_std builds; all expansions of the no-std shims (with and without ERROR_IN_CORE) are scanned for std/alloc-only names."),
  "C16": ("rt", "bounded exhaustive evaluation of the relation stated by each error text (extracted with a phrase lexicon) against the constructor's verdict on every domain input", "4/C16",
          "For every bound validator the Display text must name the type and bound, and the relation it states must agree with the real constructor on every input whose other rules pass; FromStr and serde texts must embed it."),
 }
